@@ -2,6 +2,7 @@ import TM.Term
 import TM.Keys
 import TM.Mouse
 import TM.Stream
+import TM.Scrollback
 /-!
 # Driver — line-protocol executable running the model in lock-step with the harness.
 
@@ -88,6 +89,7 @@ structure DState where
   consumed : Nat := 0
   lastRows : Array String := #[]     -- last printed rows: main rows then alt rows
   rbuf : RBuf := RBuf.init
+  off : Nat := 0                     -- rows announced through ScrollLines since the last observation
 
 def rowsOf (t : Term) : Array String :=
   ((t.main.grid.map rowStr) ++ (t.alt.grid.map rowStr)).toArray
@@ -105,6 +107,7 @@ def printObs (d : DState) (evs : List Ev) (full : Bool) : IO DState := do
   let es := evs.filterMap evStr
   out.putStrLn ("E " ++ (if es.isEmpty then "-" else ",".intercalate es))
   out.putStrLn ("W " ++ hexOrDash (replyBytes evs))
+  out.putStrLn s!"L {d.off}"
   let rows := rowsOf t
   let hMain := t.main.grid.length
   for i in [0:rows.size] do
@@ -113,7 +116,7 @@ def printObs (d : DState) (evs : List Ev) (full : Bool) : IO DState := do
       out.putStrLn s!"R {b} {y} {rows[i]!}"
   out.putStrLn "."
   out.flush
-  return { d with lastRows := rows }
+  return { d with lastRows := rows, off := 0 }
 
 /-- consume tokens until `consumed = target`; stops early when input is incomplete -/
 partial def advance (wt : WidthTable) (d : DState) (target : Nat) (evs : List Ev) (tags : List String) :
@@ -136,8 +139,13 @@ partial def advance (wt : WidthTable) (d : DState) (target : Nat) (evs : List Ev
                     else sc
           d.t.pol == .keep && contAt (s1.row s1.cy) s1.cx
         | _ => false
-      advance wt { d with t := t', pending := d.pending.drop n, consumed := d.consumed + n } target (evs ++ e)
-        (tags ++ [if k then "tK" else tokTag tk])
+      -- a character whose early or late wrap scrolls the region (whatever its top margin)
+      let sS : Bool := match tk with
+        | .text _ cp => ({ sc with top := 0 } : Scr).putOff d.t.pol (wt.lookup cp) > 0
+        | _ => false
+      advance wt { d with t := t', pending := d.pending.drop n, consumed := d.consumed + n,
+                          off := d.off + d.t.scrollOff wt.lookup tk } target (evs ++ e)
+        (tags ++ [if k then "tK" else if sS then "tS" else tokTag tk])
 
 partial def loop (wt : WidthTable) (h : IO.FS.Stream) (d : DState) : IO Unit := do
   let line ← h.getLine
@@ -239,14 +247,16 @@ partial def loop (wt : WidthTable) (h : IO.FS.Stream) (d : DState) : IO Unit := 
     -- functions the rune-mode tokens use.
     let parts := (toks.splitOn ",").filterMap fun t =>
       match t.splitOn ":" with
-      | [hx, w, m] => (bytesOfHex hx).map fun b => (b, w.toNat!, m == "1")
+      | [hx, w, m] => (bytesOfHex hx).map fun b => (b, w.toNat!, m == "1", b)
+      | [hx, w, m, st] => (bytesOfHex hx).bind fun b => (bytesOfHex st).map fun sb => (b, w.toNat!, m == "1", sb)
       | _ => none
-    let allBytes := parts.flatMap fun (b, _, _) => b
+    let allBytes := parts.flatMap fun (b, _, _, _) => b
     if d.pending.take allBytes.length ≠ allBytes then
       (← IO.getStdout).putStrLn s!"X framing grapheme run does not match the pending input consumed={d.consumed}"
     let mut t := d.t
     let mut tags : List String := []
-    for (b, w, m) in parts do
+    let mut off := d.off
+    for (_, w, m, b) in parts do
       let sc := t.scr
       if m then
         t := t.setScr (sc.merge b)
@@ -257,10 +267,12 @@ partial def loop (wt : WidthTable) (h : IO.FS.Stream) (d : DState) : IO Unit := 
                     (if sc.wrap then ({ sc with cx := 0 } : Scr).lineDown else { sc with cx := sc.w - w1 })
                   else sc
         let k := t.pol == .keep && contAt (s1.row s1.cy) s1.cx
+        if !t.onAlt then off := off + sc.putOff t.pol w
         t := t.setScr (sc.put t.pol b w)
-        tags := tags ++ [if k then "tK" else "t"]
+        let sS : Bool := ({ sc with top := 0 } : Scr).putOff t.pol w > 0
+        tags := tags ++ [if k then "tK" else if sS then "tS" else "t"]
     (← IO.getStdout).putStrLn ("T " ++ ",".intercalate tags)
-    let d' ← printObs { d with t := t, pending := d.pending.drop allBytes.length, consumed := d.consumed + allBytes.length } [] false
+    let d' ← printObs { d with t := t, off := off, pending := d.pending.drop allBytes.length, consumed := d.consumed + allBytes.length } [] false
     loop wt h d'
   | ["end"] => loop wt h d
   | [] => loop wt h d
